@@ -30,17 +30,20 @@ func init() {
 			}
 			return b
 		}
+		// the second argument lives through the whole probe, the first one is allocated anew for every call
+		y := fresh(0, -1)
+		sb := string(y)
 		for k := 0; k < n; k++ {
 			r := mix64(seed*31 + uint64(k))
-			fa, fb := -1, int(r%uint64(l))
+			fa := int(r % uint64(l))
 			if r>>20%5 == 0 {
-				fb = -1
+				fa = -1
 			}
-			x, y := fresh(uint64(k), fa), fresh(r>>8, fb)
+			x := fresh(r>>8, fa)
 			switch pkg {
 			case "bitword":
 				for _, w := range []int{1, 2, 4, 8} {
-					sa, sb := string(x), string(y)
+					sa := string(x)
 					want := 8 * l / w
 					for i := 0; i < 8*l/w; i++ {
 						bit := i * w
@@ -52,7 +55,7 @@ func init() {
 						}
 					}
 					if got := bitword.BitWord[w].FirstDiff(sa, sb, 0, -1); got != want {
-						return fmt.Sprintf("call %d: BitWord[%d].FirstDiff(%x, %x, 0, -1) = %d, want %d", k, w, x, y, got, want)
+						return fmt.Sprintf("call %d: BitWord[%d].FirstDiff(%.40x.., %.40x.., 0, -1) = %d, want %d", k, w, x, y, got, want)
 					}
 				}
 			case "bitstr":
@@ -64,20 +67,76 @@ func init() {
 					want = 1
 				}
 				if got := bitstr.Cmp(ea, eb); got != want {
-					return fmt.Sprintf("call %d: Cmp(New(%x), New(%x)) = %d, want %d", k, x, y, got, want)
+					return fmt.Sprintf("call %d: Cmp(New(%.40x..), New(%.40x..)) = %d, want %d", k, x, y, got, want)
 				}
 				if got := bitstr.CmpUpto(x, eb); got != want {
-					return fmt.Sprintf("call %d: CmpUpto(%x, New(%x)) = %d, want %d", k, x, y, got, want)
+					return fmt.Sprintf("call %d: CmpUpto(%.40x.., New(%.40x..)) = %d, want %d", k, x, y, got, want)
 				}
 				if got := bitstr.StrCmpUpto(string(x), eb); got != want {
-					return fmt.Sprintf("call %d: StrCmpUpto(%x, New(%x)) = %d, want %d", k, x, y, got, want)
+					return fmt.Sprintf("call %d: StrCmpUpto(%.40x.., New(%.40x..)) = %d, want %d", k, x, y, got, want)
 				}
 			default:
 				panic("harness: bad gcprobe package")
 			}
-			x, y = nil, nil
-			if k%2 == 0 {
-				runtime.GC()
+			x = nil
+			runtime.GC()
+		}
+		return "ok"
+	})
+}
+
+// cmpuptoprobe <len(a)> <seed>: CmpUpto with plain bytes far longer than anything the driver can hold (the bytes
+// beyond Len(b) bits do not matter, however many there are); expected sign computed here bit by bit.
+func init() {
+	reg("cmpuptoprobe", func(a []string) string {
+		la, seed := int(mustI64(a[0])), mustU64(a[1])
+		big := make([]byte, la)
+		for k := uint64(0); k < 24; k++ {
+			for i := 0; i < 16 && i < la; i++ {
+				big[i] = 0
+			}
+			big[la-1] = 0
+			r := mix64(seed*77 + k)
+			ls := 1 + int(r%12)
+			if ls > la {
+				ls = la
+			}
+			s := make([]byte, ls)
+			for i := range s {
+				s[i] = byte(mix64(r + uint64(i)))
+			}
+			to := 8*ls - int(r>>16%8)
+			if to < 0 {
+				to = 0
+			}
+			b := bitstr.New(string(s), 0, int32(to))
+			copy(big, s)
+			switch r >> 24 % 4 {
+			case 0: // differ inside the compared bits
+				if to > 0 {
+					bit := int(r >> 32 % uint64(to))
+					big[bit/8] ^= 0x80 >> uint(bit%8)
+				}
+			case 1: // differ just beyond the compared bits
+				if to < 8*la {
+					big[to/8] ^= 0x80 >> uint(to%8)
+				}
+			case 2:
+				big[la-1] = 0xff
+			}
+			want := 0
+			for bit := 0; bit < to; bit++ {
+				x, y := big[bit/8]>>uint(7-bit%8)&1, s[bit/8]>>uint(7-bit%8)&1
+				if x != y {
+					want = 1
+					if x < y {
+						want = -1
+					}
+					break
+				}
+			}
+			if got := bitstr.CmpUpto(big, b); got != want {
+				return fmt.Sprintf("CmpUpto(a, New(%x,0,%d)) = %d, want %d, with len(a)=%d, a[:12]=%x", s, to, got, want, la, big[:min(12, la)])
 			}
 		}
 		return "ok"
